@@ -3,8 +3,21 @@
    lemma of Proofs/Metrics*Proofs.v, with [Print Assumptions] beneath. *)
 From Coq Require Import QArith.
 From Coupe Require Import Lib.Prelude Lib.SFloat Lib.Csr Model.Metrics Proofs.MetricsCutProofs
-  Proofs.MetricsLambdaProofs Proofs.MetricsLoadProofs Proofs.MetricsGridProofs.
+  Proofs.MetricsLambdaProofs Proofs.MetricsLoadProofs Proofs.MetricsGridProofs Gen.MetricsGen.
 Open Scope Z_scope.
+
+(* The operators and expression shapes that Model/Metrics.v transcribes, as the translator
+   reads them from the CURRENT source (Gen/MetricsGen.v): the generic filter is
+   `part != part' && neighbor < vertex`, the specialisation is `take_while(neighbor < vertex)`
+   followed by `filter(part != part')`, the Grid iterator / index arithmetic and the
+   imbalance expressions have the transcribed shape. *)
+Theorem C16_source_operators :
+  generic_cut_part_cmp = CNe /\ generic_cut_index_cmp = CLt /\ generic_cut_uses_take_while = false
+  /\ sprs_take_while_cmp = CLt /\ sprs_filter_part_cmp = CNe /\ sprs_take_while_before_filter = true.
+Proof. exact (conj eq_refl (conj eq_refl (conj eq_refl (conj eq_refl (conj eq_refl eq_refl))))). Qed.
+Theorem C16_source_shapes :
+  forallb (fun b => b) (grid_iterator_shape ++ grid_index_shape ++ imbalance_shape) = true.
+Proof. exact eq_refl. Qed.
 
 (* the sparse-matrix specialisation (take_while on sorted rows) returns what the
    trait's default method returns, for every partition array (too short: both panic) *)
